@@ -1049,8 +1049,32 @@ impl AArch64Instruction {
                 mask = (extracted_value as u32) >> scale;
             }
         }
-        // Read the original value and combine it with the prepared mask.
+        // Clear the immediate field first: the destination may already hold a non-zero immediate
+        // and the new value must not depend on it. Then combine the rest of the original
+        // instruction with the prepared mask.
+        and_from_slice(dest, &(!self.immediate_mask()).to_le_bytes());
         or_from_slice(dest, &mask.to_le_bytes());
+    }
+
+    /// The bits of the instruction word that hold the immediate written by `write_to_value`.
+    const fn immediate_mask(self) -> u32 {
+        match self {
+            // immlo[30:29], immhi[23:5]
+            AArch64Instruction::Adr => 0x60ff_ffe0,
+            // imm16[20:5]
+            AArch64Instruction::Movkz | AArch64Instruction::Movnz => 0x001f_ffe0,
+            // imm19[23:5]
+            AArch64Instruction::Ldr | AArch64Instruction::Bcond => 0x00ff_ffe0,
+            // imm12[21:10]
+            AArch64Instruction::LdrRegister
+            | AArch64Instruction::Add
+            | AArch64Instruction::LdSt
+            | AArch64Instruction::MachOLow12 => 0x003f_fc00,
+            // imm14[18:5]
+            AArch64Instruction::TstBr => 0x0007_ffe0,
+            // imm26[25:0]
+            AArch64Instruction::JumpCall => 0x03ff_ffff,
+        }
     }
 
     /// The inverse of `write_to_value`. Returns `(extracted_value, negative)`. Supplied `bytes`
